@@ -35,7 +35,14 @@ POS_POOL = ['*', 'A', '5', '-1', '10$', '+', '-', 'A+', 'A+,B-', 'A+ B-', '3M', 
 
 def gen_doc(rng, i):
     version = 'gfa1' if i % 2 else 'gfa2'
-    lines, info = (gen.gen_gfa1(rng) if version == 'gfa1' else gen.gen_gfa2(rng))
+    if i == 1:
+        # every GFA1 alignment operation on links, containments and under paths
+        return 'gfa1', ['S\ta\t*\tLN:i:30', 'S\tb\t*\tLN:i:30', 'S\tc\t*\tLN:i:30', 'L\ta\t+\tb\t-\t2M1=1X1I1D', 'L\tb\t-\tc\t+\t1S2M1N1H1P',
+                        'C\ta\t+\tc\t-\t2\t3=1X', 'P\tp\ta+,b-,c+\t2M1=1X1I1D,1S2M1N1H1P', 'P\tq\tc-,b+\t*']
+    if version == 'gfa1':
+        lines, info = gen.gen_gfa1(rng, cigar_codes=rng.choice(['MIDP', 'MIDNSHPX=']), lengths=rng.random() < 0.5)
+    else:
+        lines, info = gen.gen_gfa2(rng)
     return version, lines
 
 
